@@ -16,6 +16,31 @@ func main() {
 	switch os.Args[1] {
 	case "check":
 		os.Exit(cmdCheck(os.Args[2:]))
+	case "sweep":
+		os.Exit(cmdSweep(os.Args[2:]))
+	case "flatten":
+		// flatten <repo> [outdir]: show what the normalisation does to a tree
+		repo := "/repo"
+		if len(os.Args) > 2 {
+			repo = os.Args[2]
+		}
+		ov, st, err := flattenOverlay(repo, "/verif", "")
+		if err != nil {
+			fmt.Fprintln(os.Stderr, err)
+			os.Exit(2)
+		}
+		fmt.Printf("rounds=%d\nnew: %v\n", st.Rounds, st.NewFuncs)
+		for _, x := range st.Inlined {
+			fmt.Println("inlined:", x)
+		}
+		for _, x := range st.Skipped {
+			fmt.Println("skipped:", x)
+		}
+		if len(os.Args) > 3 {
+			for k, v := range ov {
+				_ = os.WriteFile(os.Args[3]+"/"+strings.ReplaceAll(strings.TrimPrefix(k, repo+"/"), "/", "__"), v, 0o644)
+			}
+		}
 	case "inventory":
 		repo := "/repo"
 		if len(os.Args) > 2 {
